@@ -1765,6 +1765,10 @@ def _client_model(repo):
 # the memo decorators of util.py
 # ---------------------------------------------------------------------------
 
+class _SkipPart(Exception):
+    pass
+
+
 def memo_decorator_model(repo):
     """util.cached_property.__get__ and util.context_property interpreted on stub objects: the memo must end up holding
     exactly what the outermost call of the decorated function returned (the resolution functions re-enter themselves through
@@ -1777,6 +1781,10 @@ def memo_decorator_model(repo):
         def rec(tag, key, ok, msg, sample=None):
             out.append((tag, key, bool(ok), msg, sample))
         cp = it.lookup_global(UTIL, 'cached_property')
+        if isinstance(cp, Native):
+            # taken from functools: the stdlib descriptor stores what its call of the function returns (trusted, not interpreted)
+            rec('memo', 'cached_property keeps the outermost result', True, '', 'functools.cached_property (standard library)')
+            cp = None
         obj = st.obj(None, 'object with a cached property')
         calls = []
 
@@ -1786,6 +1794,8 @@ def memo_decorator_model(repo):
             a[0].attrs['names'] = 'provisional value stored by a re-entrant access'
             return 'complete value'
         try:
+            if cp is None:
+                raise _SkipPart()
             desc = it.call(cp, [Native('names', compute)], {})
             r = it.call(it.getattr(desc, '__get__'), [obj, None], {})
             rec('memo', 'cached_property keeps the outermost result', r == 'complete value' and obj.attrs.get('names') == 'complete value'
@@ -1795,6 +1805,8 @@ def memo_decorator_model(repo):
             r2 = it.call(it.getattr(desc, '__get__'), [None, None], {})
             rec('memo', 'cached_property on the class returns the descriptor', r2 is desc, 'cached_property.__get__(None, cls) must return '
                 'the descriptor itself; got %r' % (r2,))
+        except _SkipPart:
+            pass
         except InterpRaise as e:
             rec('memo', 'cached_property keeps the outermost result', False, 'cached_property raises %s' % e)
         # context_property
@@ -1916,6 +1928,14 @@ def assigns_model(repo):
 PROJECT = 'supp/project.py'
 
 
+def _source_suffixes(it):
+    """project.py may take its table of source suffixes from importlib.machinery (a name the interpreter does not know): on this
+    interpreter it is ['.py']"""
+    env = it.module_env('supp/project.py')
+    if 'SOURCE_SUFFIXES' in env and not isinstance(env['SOURCE_SUFFIXES'], (list, tuple, set, frozenset)):
+        env['SOURCE_SUFFIXES'] = ['.py']
+
+
 def cache_history_model(repo, depth=3):
     """Project.get_module / check_changes / SourceModule.changed / SourceModule.scope interpreted on a modelled file system with
     scripted modification times and contents, over every history of length <= depth built from: edit a module (new content, mtime
@@ -1929,6 +1949,7 @@ def cache_history_model(repo, depth=3):
         it = Interp(repo, facts)
         it.memoise_cached = True
         it.module_env(PROJECT)['SUFFIXES'] = ['.py']
+        _source_suffixes(it)
         it.sys_path = []
         it.sys_modules = {}
         # the analysis of a module is stood for by the text it was computed from and, for module a (which star-imports b), by the
@@ -2105,6 +2126,7 @@ def cache_history_model(repo, depth=3):
         # the package-name cache: a directory that was not a package when first asked may have become one since
         it2 = Interp(repo, facts)
         it2.module_env(PROJECT)['SUFFIXES'] = ['.py']
+        _source_suffixes(it2)
         it2.sys_path = []
         it2.sys_modules = {}
         it2.reset_path([])
@@ -2240,6 +2262,7 @@ def list_packages_model(repo):
             raise AnalysisError('Project vanished')
         itl = Interp(repo, facts)
         itl.module_env(PROJECT)['SUFFIXES'] = ['.py', '.pyc', '.cpython-312-x86_64-linux-gnu.so', '.abi3.so', '.so']
+        _source_suffixes(itl)
         itl.sys_path = ['<P1>']
         itl.sys_modules = {'pkg.loaded': 1, 'pkg.loaded.deep': 1, 'pkgother.x': 1, 'other': 1, 'pkg': 1}
         itl.fs_dirs = {'<S1>/pkg': ['a.py', '__init__.py', 'sub', 'data', 'c.txt', 'b.so', 'a.so', 'speed.cpython-312-x86_64-linux-gnu.so',
@@ -2287,6 +2310,9 @@ COLUMN_TEXTS = [
     u"def f(\u03b1, beta):\n    return [\u03b1 for gamma in beta if '\u00e9' in gamma]\n",
     u"x = '\U0001f600'; import os as operating\nprint('\u00df', x, operating)\n",
     u"plain = 1; ascii_only = plain\n",
+    # characters str.splitlines() takes for line ends and the parser does not (inside a literal or a comment)
+    u"sep = 'a\u2028b'  # caf\u00e9\nhome = 1; cwd = home\n",
+    u"note = 'x\x0by\x1cz\u0085'\n# \u00e9\u00e9\nvalue = 1; other = value\n",
     # a node that starts on an ASCII line and ends on a line with non-ASCII text
     u"def f():\n    names = [1,\n        '\u00e9\u00e9\u00e9\u00e9\u00e9\u00e9']; return names\n",
     u"from pkg import (nombre as\n    \u00f1ame)\n",
